@@ -99,6 +99,9 @@ def wCompSub : List (Call Empty) := [.addGate (.Composite "c" 1 (.cons .H [1] .n
 def wCompGood : List (Call Empty) :=
   [.addGate (.Composite "c" 2 (.cons .H [1] (.cons .CX [1, 0] .nil))) [0, 1],
    .addGate (.Loop "l" 0 "b" 1 (.cons .X [0] .nil)) [1], .measureAll [1, 0]]
+/-- a `Loop` of 3 iterations whose body holds another `Loop` of 3 iterations -/
+def wNestedLoop : List (Call Empty) :=
+  [.addGate (.Loop "o" 3 "b" 1 (.cons (.Loop "i" 3 "c" 1 (.cons .X [0] .nil)) [0] .nil)) [0]]
 /-- a well-formed circuit: Bell pair, measured -/
 def wGood : List (Call Empty) := [.h 0, .cx 0 1, .measureAll [0, 1]]
 
@@ -187,6 +190,11 @@ theorem compGood_accepted : allAccepted 2 2 wCompGood = true := by decide +kerne
 theorem compGood_wf : WellFormed (built 2 2 wCompGood) 2 = true := by decide +kernel
 theorem compGood_oq : openQasmCls (built 2 2 wCompGood) = .ok := by decide +kernel
 theorem compGood_latex : latexOutcome (built 2 2 wCompGood) = .ok () := by decide +kernel
+
+theorem nested_accepted : allAccepted 1 0 wNestedLoop = true := by decide +kernel
+theorem nested_defects : circDefects (built 1 0 wNestedLoop) = [.nestedLoop] := by decide +kernel
+theorem nested_latex : latexOutcome (built 1 0 wNestedLoop) = .panic := by decide +kernel
+theorem nested_oq : openQasmCls (built 1 0 wNestedLoop) = .ok := by decide +kernel
 
 theorem good_accepted : allAccepted 2 2 wGood = true := by decide +kernel
 theorem good_wf : WellFormed (built 2 2 wGood) 3 = true := by decide +kernel
